@@ -50,13 +50,17 @@ Definition take (n : nat) (bs : list N) : option (list N * list N) :=
   if (length bs <? n)%nat then None else Some (firstn n bs, skipn n bs).
 Definition get_i (w : nat) (bs : list N) : option (Z * list N) :=
   match take w bs with Some (a, r) => Some (get_bes w a, r) | None => None end.
-Definition get_u (w : nat) (bs : list N) : option (N * list N) :=
-  match take w bs with Some (a, r) => Some (get_be a 0%N, r) | None => None end.
+Fixpoint bytes_eqb (a b : list N) {struct a} : bool :=
+  match a, b with
+  | [], [] => true
+  | x :: a', y :: b' => (x =? y)%N && bytes_eqb a' b'
+  | _, _ => false
+  end.
 
 (* zig-zag varints: 0,-1,1,-2,... -> 0,1,2,3,...; base-128 little-endian digits, bit 7 =
    "more follows"; at most 10 bytes for 64 bits *)
 Definition zz_enc (z : Z) : N := if z <? 0 then Z.to_N (-2 * z - 1) else Z.to_N (2 * z).
-Definition zz_dec (n : N) : Z := if N.even n then Z.of_N (n / 2) else - Z.of_N ((n + 1) / 2).
+Definition zz_dec (n : N) : Z := if (n mod 2 =? 0)%N then Z.of_N (n / 2) else - Z.of_N ((n + 1) / 2).
 Fixpoint uv_enc (fuel : nat) (n : N) {struct fuel} : list N :=
   match fuel with
   | O => [n]
@@ -108,9 +112,9 @@ Definition enc_msg (m : msg) : list N :=
 
 (* [bs] is exactly crc ++ magic..value *)
 Definition dec_msg_body (off : Z) (bs : list N) : option msg :=
-  match get_u 4 bs with
+  match take 4 bs with
   | Some (c, body) =>
-    if negb (c =? crc32_ieee body)%N then None else
+    if negb (bytes_eqb c (put_be 4 (crc32_ieee body))) then None else
     match get_i 1 body with
     | Some (magic, r1) =>
       if negb ((magic =? 0) || (magic =? 1)) then None else
@@ -277,9 +281,9 @@ Definition dec_batch_body (base : Z) (bs : list N) : option batch2 :=
     match get_i 1 r0 with
     | Some (magic, r1) =>
       if negb (magic =? 2) then None else
-      match get_u 4 r1 with
+      match take 4 r1 with
       | Some (c, tail) =>
-        if negb (c =? crc32c tail)%N then None else
+        if negb (bytes_eqb c (put_be 4 (crc32c tail))) then None else
         match get_i 2 tail with
         | Some (attrs, t1) =>
           match get_i 4 t1 with
